@@ -73,48 +73,63 @@ theorem utf16_rune_parse {m : Nat} (hmax : m ≤ 0x10FFFF) (hns : m < 0xD800 ∨
         rw [a5] at this
         simpa using this
 
-theorem utf16_fun_roundtrip_aux : ∀ (fuel : Nat) (s : Bytes) (off : Nat), s.length ≤ fuel →
-    (Utf8.rangeDecode.go fuel off s).all Utf8.okStep = true →
-    ∃ out, utf16FormatAux fuel s = some out ∧ parseFun utf16DecF out = s
-  | 0, [], _, _, _ => ⟨[], rfl, parseFun_nil _⟩
-  | 0, _ :: _, _, h, _ => by simp at h
-  | fuel + 1, [], _, _, _ => ⟨[], rfl, parseFun_nil _⟩
-  | fuel + 1, b :: rest, off, hlen, hall => by
-    rw [go_cons, List.all_cons, Bool.and_eq_true] at hall
-    obtain ⟨hok, hall⟩ := hall
-    rcases Utf8.decodeRune_cases b rest with herr | hdec
-    · rw [herr] at hok; simp [Utf8.okStep] at hok
-    · rcases hdr : Utf8.decodeRune (b :: rest) with ⟨c, size⟩
-      rw [hdr] at hdec hall
-      simp only [] at hdec hall
-      obtain ⟨⟨m, hm, hmax, hns⟩, hs1, hsl, hs4, henc, hhi⟩ := hdec
-      have hsz : (if size = 0 then 1 else size) = size := by
-        have : size ≠ 0 := by omega
-        simp [this]
-      rw [hsz] at hall
-      obtain ⟨r, hr, hpr⟩ := utf16_fun_roundtrip_aux fuel ((b :: rest).drop size) (off + size)
-        (by simp only [List.length_drop, List.length_cons] at hlen ⊢; omega) hall
-      have hsplit : (b :: rest).take size ++ (b :: rest).drop size = b :: rest := List.take_append_drop _ _
-      by_cases hb : b < 0x80
-      · have hda := Utf8.decodeRune_ascii rest hb
-        rw [hdr] at hda
-        have hsize : size = 1 := by simp only [Prod.mk.injEq] at hda; exact hda.2
-        subst hsize
-        obtain ⟨X, hX, hXl, hXp⟩ := escu_parse (m := b) (by omega)
-        refine ⟨92 :: 117 :: X ++ r, ?_, ?_⟩
-        · simp only [List.drop_succ_cons, List.drop_zero] at hr
-          simp [utf16FormatAux, hb, hX, hr]
-        · rw [utf16_step1 hXl hXp (by omega), hpr, Utf8.encodeRune_nat1 hb]
-          simp
-      · obtain ⟨esc, hesc, hpe⟩ := utf16_rune_parse hmax hns r
-        refine ⟨esc ++ r, ?_, ?_⟩
-        · rw [← hm] at hesc
-          simp [utf16FormatAux, hb, hdr, hesc, hr]
-        · rw [hpe, hpr, ← hm, henc, hsplit]
+/-- For every input: `Utf16Parse ∘ Utf16Format` re-encodes the runes of the range loop
+(each invalid byte becomes U+FFFD). -/
+theorem utf16_fun_reencode_aux : ∀ (fuel : Nat) (s : Bytes) (off : Nat), s.length ≤ fuel →
+    ∃ out, utf16FormatAux fuel s = some out ∧
+      parseFun utf16DecF out = Utf8.reencode (Utf8.rangeDecode.go fuel off s)
+  | 0, [], _, _ => ⟨[], rfl, by simp [parseFun_nil, Utf8.rangeDecode.go, Utf8.reencode]⟩
+  | 0, _ :: _, _, h => by simp at h
+  | fuel + 1, [], _, _ => ⟨[], rfl, by simp [parseFun_nil, Utf8.rangeDecode.go, Utf8.reencode]⟩
+  | fuel + 1, b :: rest, off, hlen => by
+    rw [go_cons]
+    rcases hdr : Utf8.decodeRune (b :: rest) with ⟨c, size⟩
+    have hcases := Utf8.decodeRune_cases b rest
+    rw [hdr] at hcases
+    simp only [] at hcases ⊢
+    have hs1 : 1 ≤ size := by
+      rcases hcases with h | h
+      · simp only [Prod.mk.injEq] at h; omega
+      · exact h.sz1
+    have hsz : (if size = 0 then 1 else size) = size := by
+      have : size ≠ 0 := by omega
+      simp [this]
+    rw [hsz]
+    obtain ⟨r, hr, hpr⟩ := utf16_fun_reencode_aux fuel ((b :: rest).drop size) (off + size)
+      (by simp only [List.length_drop, List.length_cons] at hlen ⊢; omega)
+    simp only [Utf8.reencode, List.flatMap_cons]
+    simp only [Utf8.reencode] at hpr
+    rw [← hpr]
+    by_cases hb : b < 0x80
+    · have hda := Utf8.decodeRune_ascii rest hb
+      rw [hdr] at hda
+      simp only [Prod.mk.injEq] at hda
+      obtain ⟨rfl, rfl⟩ := hda
+      obtain ⟨X, hX, hXl, hXp⟩ := escu_parse (m := b) (by omega)
+      refine ⟨92 :: 117 :: X ++ r, ?_, ?_⟩
+      · simp only [List.drop_succ_cons, List.drop_zero] at hr
+        simp [utf16FormatAux, hb, hX, hr]
+      · rw [utf16_step1 hXl hXp (by omega)]
+    · have hm : ∃ m : Nat, c = (m : Int) ∧ m ≤ 0x10FFFF ∧ (m < 0xD800 ∨ 0xDFFF < m) := by
+        rcases hcases with herr | hdec
+        · simp only [Prod.mk.injEq] at herr
+          exact ⟨0xFFFD, by rw [herr.1]; rfl, by omega, by omega⟩
+        · exact hdec.nat
+      obtain ⟨m, hm, hmax, hns⟩ := hm
+      obtain ⟨esc, hesc, hpe⟩ := utf16_rune_parse hmax hns r
+      refine ⟨esc ++ r, ?_, ?_⟩
+      · rw [← hm] at hesc
+        simp [utf16FormatAux, hb, hdr, hesc, hr]
+      · rw [hpe, ← hm]
+
+theorem utf16_fun_reencode (s : Bytes) :
+    ∃ out, utf16Format s = some out ∧ parseFun utf16DecF out = Utf8.encode (Utf8.runes s) := by
+  rw [Utf8.encode_runes]
+  exact utf16_fun_reencode_aux s.length s 0 (Nat.le_refl _)
 
 theorem utf16_fun_roundtrip (s : Bytes) (hv : Utf8.valid s = true) :
     ∃ out, utf16Format s = some out ∧ parseFun utf16DecF out = s := by
-  rw [Utf8.valid_eq] at hv
-  exact utf16_fun_roundtrip_aux s.length s 0 (Nat.le_refl _) hv
+  obtain ⟨out, h1, h2⟩ := utf16_fun_reencode s
+  exact ⟨out, h1, by rw [h2, Utf8.encode_runes_valid s hv]⟩
 
 end Golib.C07
